@@ -47,7 +47,7 @@ Fold(c) == CASE c = "A" -> "a" [] c = "B" -> "b" [] c = "C" -> "c" [] OTHER -> c
 (***************************************************************************)
 Lit(c)    == [t |-> "lit", c |-> c]
 Cls(S)    == [t |-> "cls", s |-> S]              \* a class, as the subset of Sigma it contains
-NCls(S)   == [t |-> "cls", s |-> Sigma \ S]      \* negated class, relative to Sigma
+NCls(S)   == [t |-> "ncls", s |-> S]             \* negated class [^...]: under flag i the complement of the FOLDED class
 Dot       == [t |-> "dot"]                       \* any character but "\n" (any at all under flag s)
 Bol       == [t |-> "bol"]                       \* ^  (no `m' flag: beginning of text only)
 Eol       == [t |-> "eol"]                       \* $  (no `m' flag: end of text only)
@@ -87,9 +87,11 @@ REps      == RCat(<<>>)
 (* 0..Len(s); position i means "i characters consumed").  fl is the set    *)
 (* of global flags, a subset of {"i","s"}.                                 *)
 (***************************************************************************)
+InCls(S, ch, fl) == IF "i" \in fl THEN \E d \in S : Fold(d) = Fold(ch) ELSE ch \in S
 CharOK(x, ch, fl) ==
     CASE x.t = "lit" -> IF "i" \in fl THEN Fold(ch) = Fold(x.c) ELSE ch = x.c
-      [] x.t = "cls" -> IF "i" \in fl THEN \E d \in x.s : Fold(d) = Fold(ch) ELSE ch \in x.s
+      [] x.t = "cls"  -> InCls(x.s, ch, fl)
+      [] x.t = "ncls" -> ~InCls(x.s, ch, fl)
       [] x.t = "dot" -> ("s" \in fl) \/ ch # "\n"
 
 RECURSIVE Ends(_, _, _, _), SeqEnds(_, _, _, _, _), StarEnds(_, _, _, _)
@@ -104,7 +106,7 @@ StarEnds(x, s, P, fl) ==
 
 Ends(x, s, P, fl) ==
     IF P = {} THEN {} ELSE
-    CASE x.t \in {"lit", "cls", "dot"} ->
+    CASE x.t \in {"lit", "cls", "ncls", "dot"} ->
              { i + 1 : i \in { j \in P : j < Len(s) /\ CharOK(x, s[j + 1], fl) } }
       [] x.t = "bol"   -> P \cap {0}
       [] x.t = "eol"   -> P \cap {Len(s)}
@@ -143,14 +145,15 @@ DStarFix(A, X) == LET X2 == X \cup DCat(A, X) IN IF X2 = X THEN X ELSE DStarFix(
 
 CharsOf(x, fl) ==
     CASE x.t = "lit" -> { ch \in Sigma : IF "i" \in fl THEN Fold(ch) = Fold(x.c) ELSE ch = x.c }
-      [] x.t = "cls" -> { ch \in Sigma : IF "i" \in fl THEN \E d \in x.s : Fold(d) = Fold(ch) ELSE ch \in x.s }
+      [] x.t = "cls"  -> { ch \in Sigma : InCls(x.s, ch, fl) }
+      [] x.t = "ncls" -> { ch \in Sigma : ~InCls(x.s, ch, fl) }
       [] x.t = "dot" -> { ch \in Sigma : ("s" \in fl) \/ ch # "\n" }
 
 RECURSIVE D(_, _), DSeq(_, _, _)
 DSeq(xs, k, fl) == IF k > Len(xs) THEN DEps ELSE DCat(D(xs[k], fl), DSeq(xs, k + 1, fl))
 
 D(x, fl) ==
-    CASE x.t \in {"lit", "cls", "dot"} -> IF N >= 1 THEN { << <<ch>>, FALSE, FALSE >> : ch \in CharsOf(x, fl) } ELSE {}
+    CASE x.t \in {"lit", "cls", "ncls", "dot"} -> IF N >= 1 THEN { << <<ch>>, FALSE, FALSE >> : ch \in CharsOf(x, fl) } ELSE {}
       [] x.t = "bol"   -> { << <<>>, TRUE, FALSE >> }
       [] x.t = "eol"   -> { << <<>>, FALSE, TRUE >> }
       [] x.t \in {"grp", "rfrag"} -> UNION { DSeq(x.f[k], 1, fl) : k \in 1..Len(x.f) }
